@@ -221,4 +221,20 @@ PROPS["C05"] = {
     "assumptions": ["that the recursion limit suffices for a DAG of that depth is exercised, not proved (the theorem is soundness of what is returned)"],
 }
 
+PROPS["C09"] = {
+    "parts": [{"name": "decode", "pkg": "c09", "chk": "chk_c09", "args": ["decode"]},
+              {"name": "roundtrip", "pkg": "c09", "chk": "chk_c09_rt", "args": ["rt"]}],
+    "reasons": {"decode": {"1": "the codec and canonical proto3 JSON parsing both accept the text but store different values (coercion / truncation / wrap-around)",
+                           "4": "the decoder panicked",
+                           "6": "a value of the wrong JSON type for the field (e.g. an array of numbers for a bytes field) was accepted",
+                           "5": "an integer / bool / enum text that canonical parsing rejects (out of range, fractional, wrong JSON type) was accepted"},
+                "roundtrip": {"2": "encoding a value and decoding it again does not give the value back (or it cannot be encoded)",
+                              "3": "the decoder does not accept what the canonical proto3 JSON encoder emits for the value (or stores another value)"}},
+    "rule": "decode: run-time built schema with every scalar kind as singular / repeated / map (6 key kinds x 5 value kinds) fields; per kind a boundary lattice of JSON texts (0, +-1, 2^31, 2^32, 2^53+1, 2^63, 2^64 boundaries, fractional and exponent forms, quoted forms, leading zeros/plus, specials, every wrong JSON type, enum names/numbers known/unknown, base64 std/url/unpadded), with and without DiscardUnknown; each text is decoded by the codec, by protojson (reference) and by the model. roundtrip: boundary and random values of every kind through Marshal->Unmarshal and protojson->Unmarshal, floats compared by bit pattern",
+    "level_text": "Coq theorems: for every integer kind and every value in range, decoding the encoder's output and decoding the canonical (quoted 64-bit) text both give the value back; an accepted integer text denotes exactly the stored value, which is in range (no coercion, truncation or wrap-around), for EVERY text; the pre-repair integer conversion is refuted with witnesses; base64 decode . encode = id on all byte strings; bool / string / enum-name round trips. Floats: specials proved; that a finite float survives text rests on strconv (exercised, bit-compared). Tied to the code by a three-way differential (codec, protojson, model).",
+    "level_note": "Trusted: Coq kernel, extraction, modelrun, Go harness; encoding/json's tokenizer and string escaping, strconv.ParseFloat/FormatFloat, math/big.Rat.SetString, protojson as the reference implementation of canonical proto3 JSON.",
+    "design_ref": "DESIGN.md §3 C09",
+    "assumptions": ["finite-float text round trip is strconv's (named hypothesis in DESIGN §6); float32 overflow threshold is modelled exactly except within half an ulp of the boundary (double rounding)"],
+}
+
 NOT_APPLICABLE = {}
